@@ -61,6 +61,10 @@ FINDINGS = {
     6: ("c09_nested_prepend_uses_grown_length",
         "Collection._extend pads a nested field that only the other dataset has with len(collection) = length of the collection's first "
         "field, which has already been extended when it came first: the new nested field gets num_obs(other) rows too many"),
+    8: ("c09_collection_len_is_first_field",
+        "Collection.__len__ is the length of the collection's first field: a nested collection that is empty, or whose first field is "
+        "an empty collection, reports 0 rows and _extend takes the other dataset's nested fields over without padding (field shorter "
+        "than num_obs)"),
     7: ("c09_empty_self_drops_nested_fields",
         "extend onto a zero-row dataset replaces whole collections by the other dataset's: nested fields that only self has vanish "
         "(top-level fields that only self has are kept and padded)"),
@@ -176,6 +180,7 @@ def fd(path, kind, two=False, w=1, unit=None, refs=None, keymod=None):
 
 def base_schema_small():
     return [
+        fd("c0.a", "float"),      # a nested field is added first: the collection c0 is the first field of the dataset
         fd("rid", "float"), fd("key", "float", keymod=2), fd("tx", "text"), fd("t2", "text", two=True, w=2),
         fd("time", "time"),
         fd("sat", "position", refs={"time": ("field", "time")}),
@@ -187,6 +192,9 @@ def base_schema_small():
 
 def random_schema(rng):
     sch = [fd("rid", "float"), fd("key", "float", keymod=rng.choice([2, 3]))]
+    if rng.random() < 0.3:
+        # the first field of the dataset is a collection (emptied later by Del with some probability)
+        sch = [fd("c0.a", rng.choice(["float", "text"]))] + ([fd("c0.b", "float")] if rng.random() < 0.3 else []) + sch
     opt = []
     opt.append(fd("f1", "float", unit=rng.choice([None, ("meter",), ("second",)])))
     opt.append(fd("f2", "float", two=True, w=rng.choice([2, 3]), unit=None))
@@ -264,13 +272,18 @@ def make_anon(kind, rows, n):
 class Real:
     """A real Dataset + the Coq terms of the operations that built it + its schema."""
 
-    def __init__(self, n, base, wprof="narrow"):
+    def __init__(self, n, base, wprof="narrow", first_collection=None):
         from midgard.data import dataset
         self.wprof = wprof
         self.ds = dataset.Dataset(num_obs=n)
         self.gids = list(range(base, base + n))
         self.terms = [f"New {emit.nat(n)} {emit.zs(base)}"]
         self.pylog = [f"ds = Dataset(num_obs={n})   # observations {base}..{base + n - 1}"]
+        if first_collection:
+            # an empty collection as the very first field of the dataset (Collection.__len__ looks at the first field)
+            self.ds.add_collection(first_collection)
+            self.terms.append(f"AddColl {emit.s(first_collection)}")
+            self.pylog.append(f"ds.add_collection({first_collection!r})")
         self.schema = {}
         self.anon = {}          # anon id -> (first field path, attr)
 
@@ -321,8 +334,8 @@ class Real:
         self.schema[path] = f
 
 
-def build_real(schema, n, base, wprof="narrow"):
-    r = Real(n, base, wprof)
+def build_real(schema, n, base, wprof="narrow", first_collection=None):
+    r = Real(n, base, wprof, first_collection)
     for f in schema:
         r.add(f)
     return r
@@ -466,10 +479,11 @@ class History:
         self.next_base = 1000
         self.fresh = 0
         self.nderived = 0
+        self.flags = {}       # step index -> collections of self whose len() differs from num_obs before an extend
 
     # -- building the start dataset (not observed step by step)
-    def start(self, schema, n, base=0, wprof="narrow"):
-        self.real = build_real(schema, n, base, wprof)
+    def start(self, schema, n, base=0, wprof="narrow", first_collection=None):
+        self.real = build_real(schema, n, base, wprof, first_collection)
         for t in self.real.terms:
             self.steps.append((t, "OSkip"))
         self.log.extend(self.real.pylog)
@@ -551,13 +565,39 @@ class History:
         except Exception:
             return list(range(int(self.real.ds.num_obs)))
 
+    def collections_with_wrong_len(self):
+        """Paths of the (nested) collections whose Collection.__len__ - the length of their first field - is not
+        num_obs: empty collections, and collections whose first field is an empty collection."""
+        out = []
+
+        def walk(coll, prefix):
+            for name, field in coll._fields.items():
+                if field.__class__.__name__ == "CollectionField":
+                    try:
+                        n = len(field.data)
+                    except Exception:
+                        n = -1
+                    if n != int(self.real.ds.num_obs):
+                        out.append(prefix + name)
+                    walk(field.data, prefix + name + ".")
+        try:
+            walk(self.real.ds, "")
+        except Exception:
+            pass
+        return out
+
+    def add_collection(self, path):
+        self.do("AddColl " + emit.s(path), f"ds.add_collection({path!r})", lambda: self.real.ds.add_collection(path))
+
     def extend(self, other):
+        self.flags[len(self.steps)] = self.collections_with_wrong_len()
         was_empty = self.rows() == 0
         self.do("Extend " + build_term(other), "ds.extend(other)   # other:\n      " + "\n      ".join(other.pylog),
                 lambda: self.real.ds.extend(other.ds))
         self.absorb(other, was_empty)
 
     def merge(self, others, sort_by):
+        self.flags[len(self.steps)] = self.collections_with_wrong_len()
         was_empty = self.rows() == 0
         s = "None" if sort_by is None else f"(Some {emit.s(sort_by)})"
         self.do("Merge " + emit.lst(build_term(o) for o in others) + " " + s,
@@ -714,7 +754,7 @@ def apply_letter(h, letter, step, rng):
     elif letter == "i":
         h.add(fd(f"p{step}", "position", refs={"other": ("field", "sat")} if "sat" in sch and sch["sat"]["kind"] == "position" else {}))
     elif letter == "j":
-        cand = [p for p in ("tx", "dl", "grp.g1", "site", "time") if p in sch]
+        cand = [p for p in ("c0.a", "tx", "dl", "grp.g1", "site", "time") if p in sch]   # c0.a first: empties collection c0
         h.delete(cand[0] if cand else "nonexistent")
     elif letter == "k":
         # difference against a dataset with the same simple fields, paired on the key column
@@ -748,7 +788,8 @@ def random_history(ctx, rng, label, max_ops, big=False):
     h = History(ctx, label)
     n = rng.choice([0, 1, 2, 3, 3, 4, 5, 6, 8]) if not big else rng.choice([17, 24, 33, 64])
     profiles = ["narrow", "wide", "mixed", "mixed", "huge"] if not big else ["narrow", "wide", "mixed"]
-    h.start(random_schema(rng), n, wprof=rng.choice(profiles[:4]))
+    h.start(random_schema(rng), n, wprof=rng.choice(profiles[:4]),
+            first_collection="e0" if rng.random() < 0.1 else None)
     counts_profile = lambda p: ctx.count("text_width_profile:" + p)
     counts_profile("self:" + h.real.wprof)
     nops = rng.randrange(1, max_ops + 1)
@@ -814,12 +855,12 @@ def random_history(ctx, rng, label, max_ops, big=False):
             h.add(fd(path, kind, two=two, w=2 if two else 1, unit=unit, refs=refs))
             ctx.count("op:add_" + kind)
         elif r < 0.72:
-            # a nested collection is never emptied (Collection.__len__ of a collection whose first field is an
-            # empty collection is 0 - see design/C09.md; collections themselves are not part of the model)
-            def last_of_collection(p):
-                pre = p.rpartition(".")[0]
-                return pre and sum(1 for q in sch if q.startswith(pre + ".")) == 1
-            cand = [p for p in sch if p not in ("rid", "key") and not last_of_collection(p)]
+            # collections may be emptied: the empty collection stays behind in the implementation (the model
+            # has no such thing: it holds no rows), and, when it is the first field, decides Collection.__len__
+            cand = [p for p in sch if p not in ("rid", "key")]
+            nested_first = [p for p in cand if p.startswith("c0.")]
+            if nested_first and rng.random() < 0.5:
+                cand = nested_first
             h.delete(rng.choice(cand) if cand and rng.random() < 0.9 else "nonexistent")
             ctx.count("op:del")
         elif r < 0.80:
@@ -909,7 +950,8 @@ def make_history(spec):
 
 CORPUS = ["subset_index", "unstable_sort", "nested_pad", "fill_unattached", "empty_self_nested", "empty_other_sharing",
           "text_narrow_then_wide", "text_wide_then_narrow", "text_99_100", "text_100_99", "text_u99_u100", "text_u100_u99",
-          "text_merge_widths", "empty_self_toplevel"]
+          "text_merge_widths", "empty_self_toplevel", "first_collection_emptied", "first_collection_never_filled",
+          "nested_first_collection_emptied"]
 
 
 def corpus_history(name):
@@ -931,6 +973,28 @@ def corpus_history(name):
     elif name == "empty_self_nested":
         h.start(rk + [fd("grp.g1", "float"), fd("grp.gt", "text")], 0)
         h.extend(build_real(rk + [fd("grp.g1", "float")], 1, 100))
+    elif name in ("first_collection_emptied", "first_collection_never_filled"):
+        # the first field of the dataset is a collection that holds no fields (any more); every later operation
+        # still works from num_obs = number of rows
+        tail = rk + [fd("tx", "text"), fd("sat", "position")]
+        if name == "first_collection_emptied":
+            h.start([fd("c0.a", "float"), fd("c0.b", "text")] + tail, 5)
+            h.delete("c0.a")
+            h.delete("c0.b")
+        else:
+            h.start(tail, 5, first_collection="c0")
+        h.subset_mask([True, False, True, True, False])
+        h.subset_idx([2, 0])
+        h.add(fd("n1", "bool"))
+        h.filter([("key", "float", 0.0)])
+        h.extend(build_real(rk + [fd("tx", "text")], 1, 100, "wide"))
+        h.merge([build_real(rk + [fd("tx", "text"), fd("c0.a", "float")], 2, 200)], "rid")
+        h.subset_mask([False, True, True, True, False])
+    elif name == "nested_first_collection_emptied":
+        h.start(rk + [fd("grp.sub.h", "float"), fd("grp.n3", "time_delta")], 2)
+        h.delete("grp.sub.h")
+        h.subset_mask([True, True])
+        h.extend(build_real(rk + [fd("grp.n3", "time_delta")], 4, 100))
     elif name == "empty_self_toplevel":
         # a dataset emptied by subset keeps its fields; fields only self has are padded when it is extended
         h.start(rk + [fd("tx", "text"), fd("f1", "float", unit=("meter",)), fd("sat", "position")], 3)
@@ -963,7 +1027,7 @@ def _make_history(spec, counts):
     if spec[0] == "corpus":
         h = corpus_history(spec[1])
         counts["corpus"] = 1
-        return dict(label=h.label, steps=h.steps, log=h.log, summaries=h.summaries, counts=counts)
+        return dict(label=h.label, steps=h.steps, log=h.log, summaries=h.summaries, counts=counts, flags=h.flags)
 
     class C:
         def count(self, k, n=1):
@@ -983,7 +1047,7 @@ def _make_history(spec, counts):
         h = random_history(C(), _r.Random(seed), ("big:%d" if big else "random:%d") % i, max_ops, big=big)
         counts["rows_at_start:%d" % len(h.real.gids)] = 1
         counts["steps:%d" % (len(h.steps) // 5 * 5)] = 1
-    return dict(label=h.label, steps=h.steps, log=h.log, summaries=h.summaries, counts=counts)
+    return dict(label=h.label, steps=h.steps, log=h.log, summaries=h.summaries, counts=counts, flags=h.flags)
 
 
 def run(ctx):
@@ -1054,6 +1118,15 @@ def run(ctx):
             sample = {"label": h["label"], "last_ops": [l[:200] for l in h["log"][-4:]]}
             n_samples += 1
         ctx.case((h["label"], tuple(o for o, _ in h["steps"])), nontrivial=nontriv, sample=sample)
+        # the property stated directly on the observables, for every state up to the first deviation (covers what the
+        # model cannot express, e.g. empty collections): num_obs rows everywhere
+        upto = (v // 16) if v else len(h["steps"])
+        for sm in h["summaries"]:
+            if "fields" in sm and sm.get("step", 0) < upto and rect_oracle(sm):
+                ctx.violation(dict(kind="oracle", label=h["label"], step=sm["step"], history=h["log"], observed=sm,
+                                   oracle=rect_oracle(sm)),
+                              what=f"history {h['label']} step {sm['step']}: " + "; ".join(rect_oracle(sm)[:2]))
+                break
         if v == 0:
             continue
         cls, step = v % 16, v // 16
@@ -1061,6 +1134,9 @@ def run(ctx):
             # the model's precondition for extend (congruent sharing) does not hold: not judged further
             ctx.count("outside_model_domain:incongruent_sharing")
             continue
+        if cls == 1 and h["flags"].get(step) and h["steps"][step][0].startswith(("Extend ", "Merge ")):
+            # class predicate evaluated on the real objects before the step: a collection of self did not report num_obs rows
+            cls = 8
         at = [s for s in h["summaries"] if s.get("step") == step]
         oracle = [b for s in at if "fields" in s for b in rect_oracle(s)][:6]
         rep = dict(kind="history", label=h["label"], deviating_step=step, verdict_class=cls,
